@@ -101,6 +101,9 @@ func DecodeContainerChildren(hdr BoxHeader, startPos, endPos uint64, r io.Reader
 	for {
 		child, err := DecodeBox(pos, r)
 		if err == io.EOF {
+			if pos != endPos {
+				return nil, fmt.Errorf("container %s ends at %d, but its size says %d", hdr.Name, pos, endPos)
+			}
 			return children, nil
 		}
 		if err != nil {
